@@ -828,7 +828,7 @@ def _native_irregular(tier="quick", seed=0):
             r["model"] = None
         obls.append(r)
 
-    def opens(members, what, want=None, keep_slides=True):
+    def opens(members, what, want=None, keep_slides=True, grow=False):
         evals[0] += 1
         try:
             prs = Presentation(io.BytesIO(_zip(members)))
@@ -842,6 +842,17 @@ def _native_irregular(tier="quick", seed=0):
             return "%s: content differs after opening" % what
         if again != got:
             return "%s: content differs after save and re-open" % what
+        if grow:
+            # what was opened stays usable: a slide added afterwards does not displace anything that was reachable
+            try:
+                prs.slides.add_slide(prs.slide_layouts[6]).shapes.add_textbox(0, 0, 10, 10).text_frame.text = "added afterwards"
+                buf = io.BytesIO()
+                prs.save(buf)
+                grown = _summary(Presentation(io.BytesIO(buf.getvalue())))
+            except Exception as e:
+                return "%s, then a slide added: %r" % (what, e)
+            if grown[:-1] != got or [t for _, _, t in grown[-1]] != ["added afterwards"]:
+                return "%s, then a slide added: after save and re-open the slides read %r, expected the %d opened ones followed by the new one" % (what, [[t for _, _, t in sl] for sl in grown], len(got))
         return None
 
     for dname, data in _decks():
@@ -896,7 +907,8 @@ def _native_irregular(tier="quick", seed=0):
         bad = None
         slides = sorted(n for n, _ in members if re.fullmatch(r"ppt/slides/slide\d+\.xml", n))
         if slides:
-            newnums_list = list(itertools.permutations([7, 3, 12][:len(slides)]))
+            # every order of three unrelated numbers, and ascending numbers with gaps (slides were deleted by another producer)
+            newnums_list = list(itertools.permutations([7, 3, 12][:len(slides)])) + [tuple([1, 2, 4][:len(slides)]), tuple([2, 3, 4][:len(slides)]), tuple([1, 3, 4][:len(slides)])]
             for newnums in newnums_list:
                 ren = {s: "ppt/slides/slide%d.xml" % k for s, k in zip(slides, newnums)}
                 m2 = []
@@ -910,7 +922,7 @@ def _native_irregular(tier="quick", seed=0):
                         d = re.sub(rb'(["/])' + re.escape(sb) + rb'"', lambda m_: m_.group(1) + b"@@" + tb + b'"', d)
                     d = d.replace(b"@@", b"")
                     m2.append((n2, d))
-                bad = bad or opens(m2, "%s: slide parts renamed to %s" % (dname, list(newnums)), base)
+                bad = bad or opens(m2, "%s: slide parts renamed to %s" % (dname, list(newnums)), base, grow=True)
         rec("C16.native[%s].slide_parts_renamed_every_permutation" % dname, bad)
         # 6. directory form
         bad = None
